@@ -94,6 +94,7 @@ func runC08(c *core.Ctx) *core.Violation {
 	// source faults: up to two cuts of the replication link at stream positions, optional refused re-dials
 	ncuts := t.Choose(3)
 	var cutPos []int
+	var finCut []bool
 	for i := 0; i < ncuts; i++ {
 		var p int
 		switch t.Choose(3) {
@@ -108,6 +109,7 @@ func runC08(c *core.Ctx) *core.Violation {
 			p = 1
 		}
 		cutPos = append(cutPos, p)
+		finCut = append(finCut, t.Choose(3) == 2) // an orderly close by the source (FIN) instead of a reset
 	}
 	refuse := 0
 	if ncuts > 0 && t.Choose(3) == 2 {
@@ -124,7 +126,7 @@ func runC08(c *core.Ctx) *core.Violation {
 	}
 	netMode := t.Choose(2)
 	c.Sample = map[string]interface{}{"o0": o0, "resume": resume, "start": []string{"fullresync", "continue"}[startMode], "commands": len(cmds), "stream_len": len(stream),
-		"cuts_at_stream_pos": fmt.Sprint(cutPos), "refused_redials": refuse, "last_release": lastRelease.String(), "stalls": stalls, "net_mode": netMode}
+		"cuts_at_stream_pos": fmt.Sprint(cutPos), "cut_is_fin": fmt.Sprint(finCut), "refused_redials": refuse, "last_release": lastRelease.String(), "stalls": stalls, "net_mode": netMode}
 
 	var e *SyncEnv
 	var diag []string
@@ -165,6 +167,7 @@ func runC08(c *core.Ctx) *core.Violation {
 					if linkNo < len(cutPos) {
 						// stream index of the first byte on this link
 						first := int(l.StartOff - o0 - 1)
+						l.Conn.CutGraceful = finCut[linkNo]
 						if cutPos[linkNo] > first {
 							l.Conn.CutAfterTotal(l.Header + int64(cutPos[linkNo]-first))
 						} else {
@@ -378,6 +381,6 @@ func init() {
 		},
 		RealVsStub: "real: dbSync pipeline incl. pSyncPipeCopy/runIncrementalSync reconnect loop, utils.SendPSyncContinue/SendPSyncAck, pkg/redis decoder, pipe; simulated: TCP incl. link cuts and refused dials, master/target models, clock, scheduling",
 		ProbeNames: []string{"reconnect", "link_count_gt1", "several_ack_ticks"},
-		FaultNames: []string{"conn_cut", "dial_refused", "segment_split", "latency", "sched_stall"},
+		FaultNames: []string{"conn_cut", "conn_fin", "dial_refused", "segment_split", "latency", "sched_stall"},
 	})
 }
